@@ -15,6 +15,7 @@ pub mod c16;
 pub mod c14;
 pub mod c05;
 pub mod c11;
+pub mod c17;
 
 pub fn meta(id: &str, tier: &str) -> Option<CheckMeta> {
     match id {
@@ -32,6 +33,7 @@ pub fn meta(id: &str, tier: &str) -> Option<CheckMeta> {
         "C14" => Some(c14::meta(tier)),
         "C05" => Some(c05::meta(tier)),
         "C11" => Some(c11::meta(tier)),
+        "C17" => Some(c17::meta(tier)),
         _ => None,
     }
 }
@@ -44,7 +46,7 @@ pub fn master(id: &str, tier: &str, seed: u64) -> i32 {
 }
 
 pub fn prebuild(_id: &str) -> Result<(), String> {
-    for z in crate::zoo::core_zoo() {
+    for z in crate::zoo::core_zoo().into_iter().chain(std::iter::once(crate::zoo::tmpl())) {
         crate::lang::build(&z.spec, tree_sitter_generate::OptLevel::default()).map_err(|e| format!("{}: {}", z.name, e))?;
     }
     Ok(())
@@ -66,6 +68,7 @@ pub fn worker(ctx: &Ctx, res: &mut ShardResult) {
         "C14" => c14::worker(ctx, res),
         "C05" => c05::worker(ctx, res),
         "C11" => c11::worker(ctx, res),
+        "C17" => c17::worker(ctx, res),
         _ => panic!("unknown check"),
     }
 }
@@ -90,6 +93,7 @@ pub fn replay(path: &str) -> i32 {
         "C14" => c14::replay(&v["case"]),
         "C05" => c05::replay(&v["case"]),
         "C11" => c11::replay(&v["case"]),
+        "C17" => c17::replay(&v["case"]),
         _ => vec![format!("no replayer for {}", id)],
     };
     let _ = json!(null);
